@@ -78,6 +78,8 @@ type Chain struct {
 
 	// Previous selects the emulated previous release when the app is (re)constructed.
 	Previous bool
+	// ReopenDB, when set, re-opens the on-disk database on every Reopen.
+	ReopenDB func() (dbm.DB, error)
 
 	ValPriv   ed25519.PrivKey
 	valAddr   []byte
@@ -271,6 +273,15 @@ func (c *Chain) InitChain(appState []byte) (err error) {
 // Reopen abandons the running instance (uncommitted work is lost) and constructs a new
 // application over the same database, as a restarted node would.
 func (c *Chain) Reopen() error {
+	if c.ReopenDB != nil {
+		// a real restart: the database handle is closed and opened again from disk
+		_ = c.DB.Close()
+		db, err := c.ReopenDB()
+		if err != nil {
+			return err
+		}
+		c.DB = db
+	}
 	a, err := NewAppBinary(c.DB, c.Home, c.Previous)
 	if err != nil {
 		return err
